@@ -75,8 +75,24 @@ def run_impl(cfg):
             ds = ds.copy()
         elif view == 'freeze':
             ds = ds.copy(freeze=True)
-        for b in ds:
-            log.append(('batch', [e['id'] for e in b]))
+        # the observed pass may be a LATER pass over the same dataset object (after a full pass, after a pass that
+        # was abandoned with buckets still open): every pass starts from nothing
+        warm = cfg.get('warm')
+        if warm == 'full':
+            for b in ds:
+                pass
+        elif warm == 'abandoned':
+            it = iter(ds)
+            for _ in range(cfg.get('warm_k', 1)):
+                if next(it, None) is None:
+                    break
+            del it
+        del log[:]
+        try:
+            for b in ds:
+                log.append(('batch', [e['id'] for e in b]))
+        except Exception as e:  # noqa   (no input sequence makes the bucketing raise)
+            cfg['_raised'] = repr(e)[:200]
     passes = []
     cur = None
     for e in log:
@@ -101,6 +117,8 @@ def oracle(cfg, passes, log):
     """the clauses of the property, on the implementation's output alone"""
     out = []
     lens = cfg['lens']
+    if cfg.get('_raised'):
+        out.append(('pass_raises', {'error': cfg['_raised']}))
     batches = [b for p in passes for b in p]
     flat = [i for b in batches for i in b]
     num, den = cfg['num'], cfg['den']
@@ -183,6 +201,10 @@ def grid(tier, rng):
             c['sort'] = 'len'
             c['reverse'] = rng.random() < 0.5
         c['view'] = VIEWS[len(cfgs) % len(VIEWS)]
+        if len(cfgs) % 3 == 1:
+            c['warm'] = 'full'
+        elif len(cfgs) % 3 == 2:
+            c['warm'], c['warm_k'] = 'abandoned', rng.randint(0, 2)
         cfgs.append(c)
     # the witness of the repaired defect F9 and the doctest configuration always run first
     cfgs.insert(0, dict(num=1, den=2, rate=0.5, batch=3, maxTotal=10, expiration=None, maxBuffered=None, drop=False, lens=[4, 6]))
